@@ -323,6 +323,7 @@ func c18(c *core.Check) {
 	}
 	c18Geometry(c)
 	c18ArcCenter(c)
+	c18Shapes(c)
 	r3 := c.Rule("R3", "no call passes two same-typed arguments under each other's parameter names (swapped arguments): every pair of arguments named after the callee's parameters is aligned with them", 60)
 	argNameRule(c, r3, "svg", nil, 90)
 }
